@@ -817,6 +817,14 @@ def extra(ctx):
     ctx.notes["oracle_probes"] = {"random": nprobe, "batches": nbatch, "exhaustive_small_scope": n_ex, "systematic_sweeps": nsweep, "seconds": round(time.time() - t0, 1),
                                   "seed_specimens": {"rdatas": len(s.rdatas), "zone_lines": len(s.zone_lines), "test_literals": len(s.texts),
                                                      "wire_literals": len(s.wires), "messages": len(s.msg_wires)}}
+    # the shared models may have been rebuilt by someone else while the oracle ran; make sure the
+    # compiled model the correspondence is about to load is consistent with its dependencies
+    try:
+        import lib as _lib
+
+        _lib.coq_make(["Model/UntrustedM.vo"])
+    except Exception:  # noqa
+        pass
     # de-duplicate by signature, smallest probe first
     fails.sort(key=lambda f: len(repr(f.get("probe"))))
     seen = set()
